@@ -22,7 +22,7 @@ ASSUMPTIONS = [
 ]
 COMPONENTS = c04.COMPONENTS
 
-WORDS = ["pan", "eks", "wye", "zee", "a b", "x,y", "q\"r", "", "0x1F", "-1.5e3", "long" * 12, "\u00fc\u00f1\u00ee", "tab\there", "semi;colon", "eq=ual", "pipe|bar", "#hash", "back\\slash",
+WORDS = ["pan", "eks", "wye", "zee", "a b", "x,y", "q\"r", "", "0x1F", "-1.5e3", "long" * 12, "\u00fc\u00f1\u00ee", "tab\there", "semi;colon", "eq=ual", "pipe|bar", "#hash", "#x,y", "back\\slash",
          "C:\\Users\\", "trail\\", "\\", "a\\tb\\", "\\\\", "\\n\\"]
 
 
